@@ -109,6 +109,11 @@ func osslConfigs() []osslConfig {
 	}
 }
 
+// TLS <= 1.2 suites utls implements, by their OpenSSL names.
+const opensslImplementedTLS12 = "ECDHE-ECDSA-AES128-GCM-SHA256:ECDHE-RSA-AES128-GCM-SHA256:ECDHE-ECDSA-AES256-GCM-SHA384:ECDHE-RSA-AES256-GCM-SHA384:" +
+	"ECDHE-ECDSA-CHACHA20-POLY1305:ECDHE-RSA-CHACHA20-POLY1305:ECDHE-ECDSA-AES128-SHA:ECDHE-RSA-AES128-SHA:ECDHE-ECDSA-AES256-SHA:ECDHE-RSA-AES256-SHA:" +
+	"AES128-GCM-SHA256:AES256-GCM-SHA384:AES128-SHA:AES256-SHA:ECDHE-ECDSA-AES128-SHA256:ECDHE-RSA-AES128-SHA256:AES128-SHA256"
+
 type osslResult struct {
 	err       error
 	panicked  string
@@ -123,7 +128,19 @@ type osslResult struct {
 // runAgainstOpenSSL drives one handshake + line echo (s_server -rev answers each line
 // reversed) with the target against a fresh s_server process.
 func runAgainstOpenSSL(tg Target, cfg osslConfig, sni string, extraClient func(c *tls.Config)) (res osslResult) {
-	srv, err := peer.StartOpenSSL(cfg.leaf, cfg.args...)
+	args := cfg.args
+	pinned := false
+	for _, a := range args {
+		if a == "-cipher" {
+			pinned = true
+		}
+	}
+	if !pinned {
+		// the statement quantifies over server choices utls implements: keep s_server away from
+		// suites a mimicked hello lists but the library cannot run (DHE, CCM, ...)
+		args = append(append([]string(nil), args...), "-cipher", opensslImplementedTLS12)
+	}
+	srv, err := peer.StartOpenSSL(cfg.leaf, args...)
 	if err != nil {
 		res.startErr = err
 		return res
@@ -291,6 +308,22 @@ func opensslSweep(r *mon.Run, targets []Target, perTarget int, label string) {
 			h := &peer.HS{C2S: res.c2s, S2C: res.s2c}
 			allowed, class := classifyFailure(h)
 			outcome = class
+			// precondition of the statement: the server's choice must be something utls implements
+			if msgs, _, _, _ := wire.PlainHandshake(res.s2c); !allowed {
+				for _, m := range msgs {
+					if m.Type != 2 {
+						continue
+					}
+					if sh, err := wire.ParseServerHello(m.Raw); err == nil && !sh.IsHRR {
+						_, ok12 := serverSuites12[sh.Suite]
+						if !ok12 && sh.Suite != 0x1301 && sh.Suite != 0x1302 && sh.Suite != 0x1303 && sh.Suite != tls.OLD_TLS_ECDHE_RSA_WITH_CHACHA20_POLY1305_SHA256 && sh.Suite != tls.OLD_TLS_ECDHE_ECDSA_WITH_CHACHA20_POLY1305_SHA256 {
+							r.Count("openssl_chose_unimplemented_suite", 1)
+							r.Case(fmt.Sprintf("openssl|%s|%s|void", family(j.t.Name), j.c.name), false)
+							return
+						}
+					}
+				}
+			}
 			if allowed {
 				r.Count("openssl_refused", 1)
 				r.Note(fmt.Sprintf("openssl refused %s / %s: %s", family(j.t.Name), j.c.name, class))
